@@ -78,7 +78,9 @@ func judge(sc *scen.Scenario, res *scen.Result, runErr error) (string, map[strin
 			}
 			sec := ev.MsgID >> 32
 			arr := ev.TimeNs / 1e9
-			if sec < arr-2 || sec > arr+2 {
+			// the id is taken before the message is sealed and written; on a busy machine it reaches the server's log
+			// seconds later - never earlier
+			if sec < arr-30 || sec > arr+2 {
 				return "violation", feats, fmt.Errorf("msg_id %d is not derived from the current time: its seconds part %d, arrival at %d", ev.MsgID, sec, arr)
 			}
 			isAck := ev.Ctor == ackCtor
@@ -158,7 +160,7 @@ func gen(t *rapid.T) (*scen.Scenario, []string) {
 			p.Arg = int64(rapid.IntRange(1, 1<<30).Draw(t, "arg")) << 2
 			if p.Kind == "bad-msg-clock" {
 				// the server's clock: minutes behind or ahead of the client's
-				p.Arg = int64(rapid.SampledFrom([]int{-300, -120, -31, 31, 120, 300}).Draw(t, "skew"))
+				p.Arg = int64(rapid.SampledFrom([]int{-300, -120, -61, 61, 120, 300}).Draw(t, "skew"))
 				cls = append(cls, "server-history:clock-skew-notification")
 			}
 			p.InContainer = rapid.Bool().Draw(t, "pushcont")
